@@ -555,7 +555,7 @@ class Exec:
                 return f
             if rv['kind'] == 'Transmute':
                 st.events.append(('transmute', ty))
-            return ('cast', rv['kind'], ty, a)
+            return ('cast', rv['kind'], ty, a, self.facts.tys(rv['from']) if 'from' in rv else None)
         if r == 'bin':
             a = self.operand(st, fn, rv['a'])
             b = self.operand(st, fn, rv['b'])
